@@ -25,6 +25,24 @@ var families = map[string]func(r *rand.Rand, i int) *Program{
 	"persist":   genPersist,
 	"crash":     genCrash,
 	"dist":      genDist,
+	"lenrace":   genLenRace,
+}
+
+// lenrace: length readers racing producers and purgers on a paused worker (nobody else dequeues).
+func genLenRace(r *rand.Rand, i int) *Program {
+	g := &gen{r: r}
+	p := &Program{Kind: kinds(r), Conc: 1 + r.Intn(2), Queues: []string{"fifo"}, Paused: r.Intn(3) > 0}
+	a := g.adds(1 + r.Intn(3))
+	purger := []Op{{Op: "purge"}}
+	if r.Intn(2) == 0 {
+		purger = append(purger, Op{Op: "purge"})
+	}
+	reader := []Op{{Op: "qpending"}, {Op: "counts"}, {Op: "qpending"}}
+	p.Threads = [][]Op{a, purger, reader}
+	if r.Intn(2) == 0 {
+		p.Threads = append(p.Threads, g.adds(1+r.Intn(2)))
+	}
+	return p
 }
 
 // persist: persistent (acknowledging) queues with preloaded entries, undecodable entries and adapter faults.
